@@ -153,7 +153,7 @@ theorem scan_frontier (t : Tbl P) :
 
 /-- the subtree of the root of a validated table has at most `n` records -/
 theorem sz_root_le {t : Tbl P} (hv : validate t = true) (hn : 1 ≤ t.n) : sz t 0 ≤ t.n := by
-  have := scan_frontier t t.rec3 0 1 hv rfl hn
+  have := scan_frontier t t.rec3 0 1 (TrieValidate.validate_scan hv) rfl hn
   rw [sumW_next _ (by omega), sumW_empty _ (Nat.le_refl _)] at this
   omega
 
@@ -164,7 +164,7 @@ theorem entriesFuel_returns_linear {t : Tbl P} (hv : validate t = true) (fuel : 
   · unfold entriesFuel entriesInit
     rw [if_pos h0]
     exact ⟨_, rfl⟩
-  · refine entriesFuel_returns (subtreeWeights (valid_forward hv)) (valid_noZeroChild hv) fuel ?_
+  · refine entriesFuel_returns (subtreeWeights (valid_forward hv)) (valid_noZeroChild hv) (valid_validSyls hv) fuel ?_
     have := sz_root_le hv h1
     show 8 * (2 * sz t 0) + 2 ≤ fuel
     omega
